@@ -17,11 +17,17 @@ Two statements of the property are FALSE of the code (and of the model that foll
 violates (a third one, markdown's `NaN%` for a file or a report without lines, was fixed in /repo
 6c25d0d: `C13_markdown_finite` is now proved at full strength):
 * ade prints `null` (0/0) for every part without lines;
+* (part Docs, Props/C13Docs.lean) the covdir REPORT lists the children of a directory in one map
+  keyed by name: with colliding names a total is not the sum of the listed children
+  (`C13_covdir_report_sums_false` / `…_partial`); the same file says what every writer does with
+  line 0 (outside the quantifier; covdir panics: `C13_covdir_line0_panics`) and models the PRINTED
+  rate (`Stats/Printed.lean`: `printedOK`, the one place where the tolerance of the check lives);
 * the HTML page of the directory `""` (files directly under the source root) is written to
   `<output>/index.html` and replaces the global index, so `index.html` no longer shows the totals
   the badge and coverage.json are computed from.
 -/
 import GrcovModel.Lemmas.Stats
+import GrcovModel.Props.C13Docs
 namespace Grcov.Props.C13
 open Grcov AList Grcov.Stats
 
